@@ -129,12 +129,12 @@ type OpenRec struct {
 }
 
 type Kernel struct {
-	fds  map[int]*file
-	kqs  map[int]*kq
-	Log  []OpenRec
+	fds map[int]*file
+	kqs map[int]*kq
+	Log []OpenRec
 	// Faults: answer the n-th Open (0-based) with this error.
-	OpenFail map[int]error
-	nOpen    int
+	OpenFail   map[int]error
+	nOpen      int
 	KqueueFail error
 }
 
